@@ -230,6 +230,36 @@ def c07_d(ctx: Ctx):
     for r in c06_a(ctx):
         r.rule = R
         out.append(r)
+    # command line front end: tokens -> parse_filter_arg -> the same evaluator as find_jobs
+    m = ctx.prog.modules.get("signac.__main__")
+    if m is not None:
+        fw = ctx.prog.funcs.get("signac.__main__:_find_with_filter")
+        if fw is None:
+            out.append(ctx.inc(R, None, None, "signac.__main__._find_with_filter not found", construct="cli|_find_with_filter"))
+        else:
+            calls = [c for c in body_nodes(fw) if isinstance(c, ast.Call) and "signac.project:Project._find_job_ids" in common.targets_of(ctx, fw, c)
+                     or (isinstance(c, ast.Call) and isinstance(c.func, ast.Attribute) and c.func.attr in ("_find_job_ids", "find_jobs"))]
+            ok = False
+            for c in calls:
+                a = kwarg(c, "filter") or (c.args[0] if c.args else None)
+                cands = [a] if a is not None else []
+                if isinstance(a, ast.Name):
+                    cands += [n.value for n in body_nodes(fw) if isinstance(n, ast.Assign) and any(isinstance(t, ast.Name) and t.id == a.id for t in n.targets)]
+                if any(isinstance(x, ast.Call) and "signac.filterparse:parse_filter_arg" in common.targets_of(ctx, fw, x) for v in cands for x in ast.walk(v)):
+                    ok = True
+                    out.append(ctx.ok(R, fw, c, "the command line filter tokens are parsed by parse_filter_arg and evaluated by the same _find_job_ids as Project.find_jobs"))
+            if not ok:
+                out.append(ctx.viol(R, fw, fw.node, "the command line `find` does not evaluate parse_filter_arg(tokens) through Project._find_job_ids: CLI and Python spellings use different evaluators"))
+    pfa = ctx.fn("signac.filterparse:parse_filter_arg")
+    ps = ctx.fn("signac.filterparse:_parse_single")
+    # key-only token => $exists; /regex/ => $regex; JSON-like => parsed JSON; else _cast
+    txt = " ".join(canon(n) for n in body_nodes(ps) if isinstance(n, ast.Return))
+    need = ["'$exists': True", "'$regex': value[1:-1]", "_parse_json(value)", "_cast(value)"]
+    miss = [x for x in need if x not in txt]
+    if not miss:
+        out.append(ctx.ok(R, ps, ps.node, "token forms: key alone -> $exists, /re/ -> $regex, JSON text -> parsed JSON, anything else -> typed scalar"))
+    else:
+        out.append(ctx.inc(R, ps, ps.node, f"_parse_single no longer has the forms {miss}"))
     return out
 
 
